@@ -397,7 +397,7 @@ func buildCPU(v *Vec, w *World) *z80.CPU {
 		cpu.RETIHandler = recRETI{w}
 	}
 	if v.Intr != nil {
-		cpu.Interrupt = &z80.Interrupt{Type: z80.InterruptType(v.Intr.Type), Data: append([]uint8{}, v.Intr.Data...)}
+		cpu.Interrupt = mkIntr(v.Intr.Type, v.Intr.Data)
 	}
 	switch v.BP {
 	case "nil", "":
@@ -463,4 +463,24 @@ func resultStr(id string, cpu *z80.CPU, w *World) string {
 		sb.WriteString("...")
 	}
 	return sb.String()
+}
+
+// mkIntr: the request (type, data) as a user would build it — through the package's own constructors whenever one of them can express
+// it (NMIInterrupt, IM1Interrupt, IM2Interrupt, IM0Interrupt), so that the constructors are part of what is compared; a plain struct
+// literal otherwise (NMI carrying data, unknown types)
+func mkIntr(ty int, data []uint8) *z80.Interrupt {
+	switch {
+	case ty == int(z80.NMIType) && len(data) == 0:
+		return z80.NMIInterrupt()
+	case ty == int(z80.IMType) && len(data) == 0:
+		return z80.IM1Interrupt()
+	case ty == int(z80.IMType) && len(data) == 1:
+		if data[0]&0x10 == 0 { // no shared state here: the harness also runs under the race detector
+			return z80.IM2Interrupt(data[0])
+		}
+		return z80.IM0Interrupt(data[0])
+	case ty == int(z80.IMType):
+		return z80.IM0Interrupt(data[0], data[1:]...)
+	}
+	return &z80.Interrupt{Type: z80.InterruptType(ty), Data: append([]uint8{}, data...)}
 }
